@@ -74,7 +74,7 @@ U("c05_ran_start_determines_state", ["C05"], "h_ran_start", ["C05/ranstart.c"], 
   assumptions=["the second copy of rng.c is the same source compiled with -D<global>=<global>_B for its nine external names"])
 
 # ---- every parse starts from a reset engine
-U("c05_parse_resets_first", ["C05", "C06"], "h_parse_resets", ["C05/parse_resets.c"], ["mmd.c"], plain=True, lib=(), kind="finite",
+U("c05_parse_resets_first", ["C05", "C06", "C15"], "h_parse_resets", ["C05/parse_resets.c"], ["mmd.c"], plain=True, lib=(), kind="finite",
   drop_bodies=["mmd_engine_reset", "mmd_tokenize_string", "mmd_parse_token_chain"],
   pre_instrument=["--remove-function-body-regex", "^(?!mmd_engine_parse_substring$|mmd_engine_reset$|mmd_tokenize_string$|mmd_parse_token_chain$|h_parse_resets$|verif_.*$|__CPROVER.*$).*",
                   "--generate-function-body", "^(?!__CPROVER_|malloc$|free$|verif_).*$", "--generate-function-body-options", "nondet-return"],
@@ -82,3 +82,15 @@ U("c05_parse_resets_first", ["C05", "C06"], "h_parse_resets", ["C05/parse_resets
   functions=["mmd_engine_parse_substring"],
   callees={"mmd_engine_reset": "contract stub counting the call (its own contract: unit engine_reset)", "mmd_tokenize_string / mmd_parse_token_chain": "contract stubs requiring a preceding reset", "pairing passes, OPML/ITMZ import, stack_*": "body removed, nondet return value"},
   min_obligations=3, timeout=200, cost=5, assumptions=[NOFAIL])
+
+# ---- every tokenizer run re-initialises the metadata switch from the extensions alone
+U("c05_tokenize_resets_allow_meta", ["C05", "C11"], "h_tokenize_meta", ["C05/tokenize_meta.c"], ["mmd.c"], plain=True, lib=(), kind="bounded",
+  defines=["-DLN=2"], drop_bodies=["mmd_assign_line_type"],
+  pre_instrument=["--remove-function-body-regex", "^(?!mmd_tokenize_string$|mmd_assign_line_type$|scan$|token_new$|token_append_child$|h_tokenize_meta$|verif_.*$|__CPROVER.*$).*",
+                  "--generate-function-body", "^(?!__CPROVER_|malloc$|free$|verif_).*$", "--generate-function-body-options", "nondet-return"],
+  cbmc_flags=["--unwind", "5", "--unwinding-assertions", "--object-bits", "10"], checks=["--no-standard-checks"],
+  bounds={"range length<=": 2, "token types": "any (lexer stub)", "unwind": 5},
+  functions=["mmd_tokenize_string"],
+  callees={"scan (re2c lexer)": "contract stub: one byte per token, any type, 0 at the end of the range", "mmd_assign_line_type": "stub recording e->allow_meta at its first call; sets any non-zero line type, may clear the flag",
+           "token_new, token_append_child": "minimal stubs", "scan_empty_meta_line": "body removed, nondet return value"},
+  min_obligations=3, timeout=600, cost=60, assumptions=[NOFAIL, "memory safety of the function is not claimed by this unit (standard checks off)"])
